@@ -984,6 +984,10 @@ func (e *Exec) defaultTaken(site string) {
 	e.res.Defaults = append(e.res.Defaults, site)
 }
 
+// DefaultsTaken lists the source positions of select statements whose default
+// arm was taken so far in this execution (a proxy's drop site shows up here).
+func DefaultsTaken() []string { return ex.res.Defaults }
+
 // NextObjID hands out small deterministic ids for harness objects.
 func NextObjID() int { ex.objseq++; return ex.objseq }
 
